@@ -24,25 +24,23 @@ Qed.
 Theorem tr_TarsRequest_equiv : forall (max : Z) (buf : list N),
   tr_TarsRequest max buf = Return (enc_pstat (tars_request (Z.to_N max) buf)).
 Proof.
-  intros max buf. unfold tr_TarsRequest, tars_request. fold_bool.
-  destruct buf as [|a [|b [|c [|d r]]]]; try reflexivity.
+  intros max buf. unfold tr_TarsRequest, tars_request.
+  destruct buf as [|a [|b [|c [|d r]]]];
+    try (unfold go_len; cbn [length hdr]; fold_bool; split_ifs; try reflexivity; exfalso; lia).
   assert (L : go_len (a :: b :: c :: d :: r) = 4 + Z.of_nat (length r)) by (unfold go_len; cbn [length]; lia).
-  rewrite L.
-  replace (go_slice (a :: b :: c :: d :: r) 0 4) with [a; b; c; d] by (rewrite go_slice_std by lia; reflexivity).
-  replace (4 + Z.of_nat (length r) <? 4) with false by lia.
-  replace (go_slice_ok (a :: b :: c :: d :: r) 0 4) with true by (unfold go_slice_ok; rewrite L; lia).
-  replace (4 <=? go_len [a; b; c; d]) with true by reflexivity.
-  cbn [andb hdr].
+  (* whatever slices of the first four bytes the code takes and checks *)
+  repeat match goal with |- context [go_slice (a :: b :: c :: d :: r) ?lo ?hi] =>
+    let v := eval cbv in (firstn (Z.to_nat (hi - lo)) (skipn (Z.to_nat lo) [a; b; c; d])) in
+    replace (go_slice (a :: b :: c :: d :: r) lo hi) with v by (rewrite go_slice_std by lia; reflexivity) end.
+  unfold go_slice_ok. rewrite !L. cbn [hdr].
   set (l := (((a * 256 + b) * 256 + c) * 256 + d)%N).
   replace (go_be_u32 [a; b; c; d]) with (Z.of_N l) by (unfold go_be_u32, go_be, l; lia).
+  replace (go_len [a; b; c; d]) with 4 by reflexivity.
   replace (N.of_nat (length (a :: b :: c :: d :: r))) with (4 + N.of_nat (length r))%N by (cbn [length]; lia).
-  destruct (l <? 4)%N eqn:E1; [replace (Z.of_N l <? 4) with true by lia; reflexivity|].
-  replace (Z.of_N l <? 4) with false by lia.
-  destruct (Z.to_N max <? l)%N eqn:E2; [replace (max <? Z.of_N l) with true by lia; reflexivity|].
-  replace (max <? Z.of_N l) with false by lia. cbn [orb].
-  destruct (4 + N.of_nat (length r) <? l)%N eqn:E3.
-  - replace (4 + Z.of_nat (length r) <? Z.of_N l) with true by lia. reflexivity.
-  - replace (4 + Z.of_nat (length r) <? Z.of_N l) with false by lia. cbn [enc_pstat]. do 2 f_equal. lia.
+  (* the model's cases, then the conditions of the translated code: they agree or the case is contradictory *)
+  destruct (l <? 4)%N eqn:M1; [|destruct (Z.to_N max <? l)%N eqn:M2; [|destruct (4 + N.of_nat (length r) <? l)%N eqn:M3]];
+    cbn [orb enc_pstat]; fold_bool; split_ifs; try reflexivity; try (exfalso; lia).
+  do 2 f_equal. lia.
 Qed.
 
 (* consequently the translated function distinguishes exactly the model's outcomes *)
